@@ -34,7 +34,7 @@ SHIFTS = [("center", "left"), ("center", "right"), ("center", "inner"), ("center
 OPS = ["diff", "interp", "min", "max"]
 OTHER = ["cumsum", "cumsum_outer", "derivative", "integrate", "average", "cumint", "diff_xy", "interp_xy",
          "ufunc_plain", "ufunc_overlap", "ufunc_overlap_outer", "vec_simple", "vec_faces", "scalar_faces",
-         "scalar_faces_xy", "metric_weighted", "multi_outer", "multi_outer_rev", "pair_one_graph", "product_one_graph"]
+         "scalar_faces_xy", "metric_weighted", "multi_outer", "multi_outer_rev", "pair_one_graph", "product_one_graph", "min_xy_mixed", "max_yx_mixed"]
 
 
 def plen(p, n):
@@ -114,8 +114,18 @@ def _lazy_vs_eager(build_lazy, build_eager, sched):
         is_lazy = all(hasattr(o.data, "dask") for o in outs)
         with dask.config.set(scheduler=sched):
             comp = list(dask.compute(*outs))       # all results of the call in ONE graph
-    ok = built == 0 and is_lazy and len(comp) == len(eouts)
-    detail = f"computations while building={built} lazy={is_lazy}"
+            # the blocks must really have the sizes the result announces: continuing lazily (here:
+            # adding a zero array laid out in the announced chunks) must work and change nothing
+            import xarray as xr
+            try:
+                cont = list(dask.compute(*[o + xr.zeros_like(o) for o in outs]))
+                blocks_ok = all(np.array_equal(a.values, b.values, equal_nan=True) for a, b in zip(cont, comp))
+            except Exception as e:
+                blocks_ok = False
+                cont_err = f"{type(e).__name__}: {e}"[:120]
+    ok = built == 0 and is_lazy and len(comp) == len(eouts) and blocks_ok
+    detail = f"computations while building={built} lazy={is_lazy}" + \
+        ("" if blocks_ok else " blocks do not have the announced sizes (continuing lazily fails)")
     for c, e in zip(comp, eouts):
         same = c.dims == e.dims and c.shape == e.shape and np.array_equal(c.values, e.values, equal_nan=True) and \
             sorted(map(str, c.coords)) == sorted(map(str, e.coords)) and \
@@ -242,6 +252,16 @@ def run_other(case):
                 expect_refusal = True
                 lazy, eager = (lambda: apply_as_grid_ufunc(f2, dd, **args)), \
                     (lambda: apply_as_grid_ufunc(f2, da, **{**args, "dask": "forbidden", "map_overlap": False}))
+        elif w in ("min_xy_mixed", "max_yx_mixed"):
+            # an earlier axis chunked along its dimension, a later one in a single chunk
+            if w == "min_xy_mixed":
+                d1 = da.chunk({"xc": tuple(composition(rng, N)) if N > 1 else (N,), "yc": 3})
+                if len(d1.chunks[d1.dims.index("xc")]) == 1:
+                    d1 = da.chunk({"xc": (1, N - 1), "yc": 3})
+                lazy, eager = (lambda: g.min(d1, ["X", "Y"], boundary=b)), (lambda: g.min(da, ["X", "Y"], boundary=b))
+            else:
+                d1 = da.chunk({"yc": (1, 2), "xc": N})
+                lazy, eager = (lambda: g.max(d1, ["Y", "X"], boundary=b)), (lambda: g.max(da, ["Y", "X"], boundary=b))
         elif w in ("multi_outer", "multi_outer_rev"):
             # a later axis goes to a length-changing position but is not chunked: not a refusal
             order = ["X", "Y"] if w == "multi_outer" else ["Y", "X"]
